@@ -25,6 +25,9 @@ impl Content {
         let mut data = vec![];
         for part in self.parts.iter() {
             data.extend_from_slice(&t!(part.data(resolve)));
+            // the parts are split between tokens: keep the last token of one part and the first token
+            // of the next part apart
+            data.push(b'\n');
         }
         parse_ops(&data, resolve)
     }
